@@ -15,6 +15,9 @@ Explains(e) ==
        /\ e.raised = ""
        /\ e.pos = HdrTx(Layout(e.ver), e.seq, e.id) \o Concat(e.chunks)
        /\ e.kw = HdrTx(Layout(e.ver), (e.seq + 1) % 256, e.id) \o Concat(e.chunks)
+       (* further call forms (keywords in another order, positional prefix + keywords): the order in which the *)
+       (* caller writes keyword arguments is immaterial, the arguments go out in DECLARED order                  *)
+       /\ \A k \in 1 .. Len(e.forms) : e.forms[k] = HdrTx(Layout(e.ver), (e.seq + 1 + k) % 256, e.id) \o Concat(e.chunks)
     \/ /\ e.a = "rx"                    \* an encoded value tuple fed through the receive path
        /\ e.raised = ""
        /\ e.frame = HdrRx(Layout(e.ver), e.seq, e.id, e.fc) \o Concat(e.chunks)
